@@ -50,6 +50,45 @@ def exact_runs(rep, tier, rnd, traces, meta):
         meta.append(desc)
 
 
+def first_step_removes(rep, tier, rnd, traces, meta):
+    """Exact mode, a penalty so strong that the FIRST step of the path already removes a feature (but not all of them), with scores
+    that keep rising afterwards: the only score obtained with all the features is the one of the initial fit, and a small legal alpha
+    (below the documented default of 1e-2) on the same models: the alphas start at the model's alpha."""
+    from gemclus.sparse import SparseLinearModel
+    for r in range(6 if tier == "quick" else 40):
+        n, d = rnd.choice([(5, 4), (6, 5)])
+        X = train.make_data(n, d, rnd)
+        lr = rnd.choice([0.5, 0.25])
+        for seed in range(rnd.randint(0, 50), 400):          # initial weights (zero gradient, alpha=0: the initial fit leaves them as drawn)
+            with warnings.catch_warnings():                   # with one row much smaller than the others
+                warnings.simplefilter("ignore")
+                dry = SparseLinearModel(n_clusters=2, gemini=path.scripted_gemini([1] * 50), max_iter=1, alpha=0, learning_rate=lr, random_state=seed).fit(X)
+            norms = np.sort(np.linalg.norm(dry.W_, axis=1))
+            if norms[0] < 0.12 * norms[1]:
+                break
+        small = r % 3 == 2
+        alpha = rnd.choice([0.001, 0.002, 0.005]) if small else float(norms[0] * 1.05 / lr)
+        L = 12
+        script = [1] + sorted(rnd.choice([1, 2, 3, 4]) for _ in range(L // 2)) + [rnd.choice([1, 2, 3]) for _ in range(L // 2)]
+        script = script + [script[-1]] * 4000
+        keep = rnd.choice([(3, 4), (1, 1), (1, 2)])
+        args = dict(alpha_multiplier=rnd.choice([1.25, 1.125]) if not small else 8.0, min_features=1, keep_threshold=keep[0] / keep[1], early_stopping_factor=0.5,
+                    max_patience=1, restore_best_weights=True)
+        m = SparseLinearModel(n_clusters=2, gemini=path.scripted_gemini(script), max_iter=1, alpha=alpha, learning_rate=lr, random_state=seed)
+        desc = dict(mode="exact", scenario="small alpha" if small else "first step removes a feature", estimator="SparseLinearModel", n=n, d=d,
+                    script=script[:L + 1], args=args, alpha=alpha, lr=lr, seed=seed)
+        out = path.record_path(m, X, None, script=script, frac=dict(keep=keep, esf=(1, 2)), **args)
+        rep.case(desc)
+        if out["err"] is not None:
+            tag = "nonterminating" if isinstance(out["err"], path.TooLong) else "raises"
+            rep.violation(f"path raised {type(out['err']).__name__}: {out['err']} for {desc}", {"meta": desc}, tags=(tag,))
+            continue
+        ret = [e for e in out["path"] if e.get("e") == "ret"]
+        rep.extra.setdefault("first_step_feature_counts", []).append([d] + (ret[0]["nfeat"][:3] if ret else []))
+        traces.append(out["path"])
+        meta.append(desc)
+
+
 def float_runs(rep, tier, rnd, traces, meta):
     from gemclus.sparse import SparseLinearModel, SparseMLPModel, SparseLinearMMD, SparseMLPMMD, SparseLinearMI
     from gemclus.gemini import MMDGEMINI
@@ -144,6 +183,7 @@ def run(tier):
         rep.violation(f"Path specification violates {r.violated}", {"trace": r.trace[:3000]}, tags=("spec",))
     traces, meta = [], []
     exact_runs(rep, tier, rnd, traces, meta)
+    first_step_removes(rep, tier, rnd, traces, meta)
     float_runs(rep, tier, rnd, traces, meta)
     dynamic_all_removed(rep, rnd, traces, meta)
     alpha_zero(rep, rnd)
